@@ -247,6 +247,29 @@ BDProg(sh, ow, n) ==
     [] ow = "toplevel"    -> <<BDCallee(sh), Def1("r", call), Def1("t", NatLit(100)), Asg1("r", Bin("+", Var("r"), call)), PV("top", <<"t", "r">>)>>
     [] ow = "callerloop"  -> <<BDCallee(sh), Func("caller", <<>>, <<>>, <<For3(Def1("t", NatLit(0)), CmpE("<", Var("t"), NatLit(2)), Inc("t"), <<PrintS(<<StrL("loop"), Var("t"), call>>)>>)>>), ExprS(CallE("caller", <<>>))>>
 BlockDefCases == {CaseOf("C02/blockdef/" \o sh \o "/" \o ow \o "/" \o ToString(n), BDProg(sh, ow, n)) : sh \in BDShapes, ow \in BDOwners, n \in {1, 20, 40}}
-All == BlockDefCases \cup RetFormCases \cup LoopCallCases \cup RoleCases \cup ArityCases \cup GlobalCases \cup SwapCases \cup NestCases \cup MultiCallCases
+\* ---- argument VALUES (round 13: a literal argument with pattern characters left unquoted binds to file names when the working directory holds a match;
+\* the harness puts decoy files there): every value of a catalog of awkward-looking strings / integers / booleans bound to every parameter position,
+\* written as a literal at the call, held in a variable, and delivered by another call; the callee hands back what each parameter holds
+ArgStrs == <<"", "*", "?", "[ab]", "*.txt", "-n", "-e", "a b", " a", "a ", "~", "#x", "x;y", "0", "08", "true", "a=b", "!x", "{a,b}", "a*b?c", "&", "|", ">f", "(x)", "%s", "a  b", "--", "1 -eq 1", "\t", "a\nb">>
+ArgInts == <<"0", "-1", "10", "007", MaxInt64, "-9223372036854775807", "-10", "100", "9", "1">>
+ArgValProg(i, form) ==
+  LET sv == ArgStrs[i]
+      iv == IntL(ArgInts[(i % Len(ArgInts)) + 1])
+      bv == BoolL(i % 2 = 0)
+      S == CASE form = "lit" -> StrL(sv) [] form = "var" -> Var("v") [] form = "ret" -> CallE("id", <<StrL(sv)>>) [] form = "cat" -> Bin("+", StrL(""), StrL(sv))
+  IN <<Func("id", <<Param("s", "string")>>, <<"string">>, <<RetS(<<Var("s")>>)>>),
+       Func("pair", <<Param("a", "string"), Param("b", "string")>>, <<"string">>, <<RetS(<<Bin("+", Bin("+", Bin("+", Bin("+", StrL("["), Var("a")), StrL("|")), Var("b")), StrL("]"))>>)>>),
+       Func("third", <<Param("a", "string"), Param("b", "string"), Param("c", "string")>>, <<"string", "int">>, <<RetS(<<Var("c"), LenE(Var("a"))>>)>>),
+       Func("show", <<Param("n", "int"), Param("s", "string"), Param("t", "bool"), Param("m", "int")>>, <<>>, <<PrintS(<<Var("n"), Var("s"), Var("t"), Var("m")>>), Asg1("s", StrL("gone")), Asg1("n", NatLit(5))>>),
+       Def1("v", StrL(sv)),
+       Print1(CallE("pair", <<S, StrL("x")>>)),
+       Print1(CallE("pair", <<StrL("x"), S>>)),
+       Print1(CallE("pair", <<S, S>>)),
+       Def(<<"c", "n">>, <<CallE("third", <<S, StrL("m"), StrL("z")>>)>>),
+       PrintS(<<Var("c"), Var("n")>>),
+       ExprS(CallE("show", <<iv, S, bv, Bin("-", iv, NatLit(1))>>)),
+       PrintS(<<Var("v"), LenE(Var("v"))>>)>>
+ArgValCases == {CaseOf("C02/argval/" \o form \o "/" \o ToString(i), ArgValProg(i, form)) : i \in 1..Len(ArgStrs), form \in {"lit", "var", "ret", "cat"}}
+All == ArgValCases \cup BlockDefCases \cup RetFormCases \cup LoopCallCases \cup RoleCases \cup ArityCases \cup GlobalCases \cup SwapCases \cup NestCases \cup MultiCallCases
 ASSUME ndJsonSerialize("fam.ndjson", SetToSeq(All))
 =============================================================================
